@@ -15,7 +15,13 @@ first_miss = {"C05-D": "missed at first: reception was only checked by object id
               "C18-C": "missed at first: LSS requests were only contracted on an empty queue → LssStaleReplies added",
               "C19-C": "first run did not terminate (the changed code loops forever inside one path) → per-path wall-clock budget added; now reported through NextState",
               "C20-C": "missed at first: ODArray template expansion was not under contract → ArrayTemplate added",
-              "C12-D": "missed at first by C12 alone: request_response belongs to C01/C07 → ReqResp joined C12/C13"}
+              "C12-D": "missed at first by C12 alone: request_response belongs to C01/C07 → ReqResp joined C12/C13",
+              "C06-E": "undecided at first (the changed code inspects individual surplus bytes of a symbolic-length payload) → NodeSetDataLengths: every numeric type x every concrete payload length 0..9",
+              "C08-F": "missed at first: the array template carried only non-zero sample values → ArrayTemplate now also with arbitrary limits and default",
+              "C10-F": "undecided at first (bisect not modelled, history list opaque) → bisect models, Scanner also with a known history of 2 / 3 ids",
+              "C14-E": "missed at first: the generated dictionaries had no REAL defaults → float defaults / values in both EDS generators",
+              "C19-E": "missed at first: the drive always displayed mode 0 beforehand → any defined mode displayed beforehand",
+              "C20-E": "missed at first: the physical-view stand-in used float operands only → integer physical values with integer factors added"}
 n_det = n_app = 0
 for sid in sorted(R):
     r = R[sid]
@@ -35,8 +41,9 @@ for sid in sorted(R):
     if sid in first_miss:
         note += " — " + first_miss[sid]
     rows.append("| %s | %s | %s | %s | %s |" % (sid, summ, need, note, "; ".join(o.split(":")[-1][:90] for o in obl)))
-head = ("Round 1 (`-A`, `-B`, written against the pinned commit) and round 2 (`-C`, `-D`, written against the repaired tree, asked to "
-        "look beyond the central function). Applicable changes: %d, caught by the targeted check(s): %d.\n\n" % (n_app, n_det))
+head = ("Round 1 (`-A`, `-B`, written against the pinned commit), round 2 (`-C`, `-D`, written against the repaired tree, asked to "
+        "look beyond the central function) and round 3 (`-E`, `-F`, against the final repaired tree, asked for subtle changes in rarely "
+        "exercised paths). Applicable changes: %d, caught by the targeted check(s): %d.\n\n" % (n_app, n_det))
 txt = open("DESIGN.md").read()
 block = "<!-- SEEDED-TABLE-BEGIN -->\n" + head + "\n".join(rows) + "\n<!-- SEEDED-TABLE-END -->"
 if "<!-- SEEDED-TABLE-BEGIN -->" in txt:
